@@ -153,7 +153,7 @@ EXTRA = {
  "C12": "Also: derived-context children, slow Close hooks, the close-is-complete clause for the last-returning call of a group of overlapping Closes, graceful-shutdown plans. Scopes whose context derives from the provider's root context (children of the root scope, provider scopes on the injected root context) with failing Close methods. Close called from inside a Close method: own scope, ancestor, provider; instance in a nested, top-level or the root scope; closed directly / by cancel / by a parent; a sibling instance failing (the interrupted Close reports it); aged-process overlaps; CreateScope overlapping a Close with initializers that built disposables. Waves 15/16: ready values with a failing Close under aliases (removed / only a later alias resolved): error iff a Close method failed, ownership independent of the alias; sibling scopes on a context derived from another scope's context (fix 9e88956). Wave 17: grandchildren on their uncles' contexts (both fail: the aggregate lists both). Wave 18: derived-context shapes with scopes opened from the provider's root scope.",
  "C13": "Also: ancestor Close overlapping an in-flight Close of a descendant (probe at the return of the ancestor's Close), descendant-survives-close after overlapping CreateScope. Two or three more resolvers of the same scoped service queued behind the in-flight construction when the Close arrives. The re-entrant fixture's hang clause (provider closed from the Close of a top-level / root-scope instance); waiters behind scoped services with dependencies, leaves with and without Close; instances under two aliases in every overlap scenario. Waves 15/16: nested scope creation from an initializer while the provider closes (judged for C13 too); two providers behind nested web scope middlewares (in-flight request, closed provider); the two-goroutine re-entrant close is the one KNOWN-FINDING. Wave 17: descendants of the root-scope handle report the disposed error after the handle was closed. Wave 18: the on-ancestor sandwich also for CreateScope; a scope handed out by a CreateScope overlapping the cascade refuses use once the closing call returned.",
  "C14": "Also: Close-error variants, contexts already done at creation, and a create-vs-close race workload (a parent's Close racing the creation of its children under contention on the provider's bookkeeping; weak-pointer oracle with the provider still open). A unit of work that closes its own scope; requests rejected by a configured middleware in all five web integrations; groups with members of different lifetimes; the scope middleware installed on two levels; an instance whose Close waits for a worker bound to the scope's context. Waves 15/16: scope creations refused while the provider closes, under an application context of its own type (goroutines back to baseline); two containers sharing a constructor with an optional field (nothing of a closed scope is handed out again). Wave 17: one instance under two identities (As aliases, one object returned for two outputs), transient / scoped, in cycles: collectable with the provider open. Cycles whose Close reports an error (a scoped / transient instance fails to close; nested scope too), under the provider and under a long-lived parent scope: scopes and instances collectable. Wave 18: per-cycle scope trees opened from the provider's root scope (host=root).",
- "C15": "Also: constructor error values of several shapes (stateless zero-valued struct / int errors, wrapped, chains containing godi's own BuildError), constructors with concrete error result types, concurrent waiters behind a failing construction. BuildWithContext cancelled inside the first / middle / last constructor of the Build: no panic and nothing constructed stays undisposed. BuildWithOptions with a constructor failing after the time limit elapsed; result lists beyond the usual shapes ((Out, T, error), (*Out, T, error), (T, T, T, error)); a Build whose clean-up fails too; module options applied to a nil Collection; the nil output of a multi-output constructor requested first (the sibling it produced stays owned); an optional dependency whose provider fails once. Waves 15/16: panic values that read like reflect / runtime messages; failure classes after a second Build of an edited collection. Wave 17: variadic constructors that panic / fail (every lifetime, Build and BuildWithOptions for singletons, direct and through modules), asked again afterwards; build doors.",
+ "C15": "Also: constructor error values of several shapes (stateless zero-valued struct / int errors, wrapped, chains containing godi's own BuildError), constructors with concrete error result types, concurrent waiters behind a failing construction. BuildWithContext cancelled inside the first / middle / last constructor of the Build: no panic and nothing constructed stays undisposed. BuildWithOptions with a constructor failing after the time limit elapsed; result lists beyond the usual shapes ((Out, T, error), (*Out, T, error), (T, T, T, error)); a Build whose clean-up fails too; module options applied to a nil Collection; the nil output of a multi-output constructor requested first (the sibling it produced stays owned); an optional dependency whose provider fails once. Waves 15/16: panic values that read like reflect / runtime messages; failure classes after a second Build of an edited collection. Wave 17: variadic constructors that panic / fail (every lifetime, Build and BuildWithOptions for singletons, direct and through modules), asked again afterwards; build doors. Wave 18: three directed sets (scope initializers constructing disposable services; top-level scope, child, grandchild) lead the fault enumeration in every tier.",
  "C16": "Also: application-scope request contexts, a second differently configured ScopeMiddleware/Handle instance per case, and the scope-closed-at-unwind clause (evaluated at the moment the request leaves the middleware chain, aborts included). Exit path 'initfail' (a scope initializer of the real provider fails for the request); nil values of the handler options that are documented as 'the default is used'; fallback handlers (gin NoRoute/NoMethod, echo RouteNotFound, fiber catch-all) behind an engine-wide middleware; requests rejected by a configured middleware; one *http.Request dispatched several times; the middleware installed on two levels. Wave 16: two providers: nested middlewares and blue/green providers of one collection (net/http, chi, gin, echo). Wave 17: the request's scope closed (directly / by cancelling the request context) between the scope middleware and Handle, controllers of every lifetime (net/http, chi, gin, echo).",
  "C17": "Also: result-object fields with both name and group (must be rejected), RemoveKeyed with nil / empty-string / non-string keys. RemoveKeyed with int keys equal to group positions; registrations without a result (initializers) with ordinary services before them and ToSlice/Count compared across every Build; Builds refused in the middle of a sequence, issued for real under a watchdog. Wave 16: refused-build sequences with optional captive dependencies, judged by the model of package core when the fresh twin fails too. Wave 18: in the directed refused-build sequences a Build that succeeds where the reference refuses is compared with a fresh twin holding exactly the surviving registrations; Build-ok / removal only / Build sequences.",
  "C18": "Also: reserved types in every derived registration form (As, multi-return, result-object fields incl. grouped), concurrent sections, nil-context children inheriting cancellation and deadline. Built-in injectables requested through fields tagged optional. The three Build doors (Build / BuildWithContext cancelled or timed out after start-up / BuildWithOptions) and the root scope's context; built-ins as embedded parameter-object fields; the context installed by an upstream middleware is what the request's scope is created with (five integrations); the collection built again while the first provider is in use. Wave 16: a context that carries a scope of another provider passed to CreateScope.",
